@@ -1,5 +1,5 @@
 (* C13 — judgement of one data_section dump of the real compiler, and of one end-to-end observation. *)
-From SwayV Require Import Base.Util Layout.Bytes C13.Model C13.Spec.
+From SwayV Require Import Base.Util Layout.Bytes Layout.Abi C13.Model C13.Spec.
 Local Open Scope N_scope.
 
 Record dump := Dump {
@@ -44,3 +44,27 @@ Definition judge (d : dump) : N :=
 (* end-to-end: 0 ok, 1 VIOLATION (observed values differ from expected) *)
 Definition judge_e2e (expected observed : list (list N)) : N :=
   if observed_okb expected observed then 0 else 1.
+
+(* end-to-end with the canonical encoding: configurables (type, compiled-in value); optionally one is
+   patched with `patch_bytes` claimed to encode `newv`.
+   0 ok   1 VIOLATION observed logs differ from expected   8 machinery: patch bytes are not enc newv
+   9 machinery: ill-typed generated value *)
+Fixpoint replace_nth {A} (l : list A) (i : nat) (x : A) : list A :=
+  match l, i with
+  | [], _ => []
+  | _ :: r, O => x :: r
+  | a :: r, S k => a :: replace_nth r k x
+  end.
+
+(* predicates cannot log: their tests revert with this checksum of encode(C_i) *)
+Definition hash_bytes (bs : list N) : N := fold_left (fun h b => (h * 31 + b) mod 1000000007) bs 7.
+
+Definition judge_run (hashed : bool) (cfgs : list (aty * aval)) (p : option (nat * aval * list N)) (observed : list (list N)) : N :=
+  let cfgs' := match p with
+               | Some (i, nv, _) => match nth_error cfgs i with Some (t, _) => replace_nth cfgs i (t, nv) | None => cfgs end
+               | None => cfgs end in
+  if negb (forallb (fun c => wtb (fst c) (snd c)) cfgs') then 9
+  else if negb (match p with
+                | Some (i, nv, pb) => match nth_error cfgs i with Some (t, _) => list_eqb (enc t nv) pb | None => false end
+                | None => true end) then 8
+  else judge_e2e (map (fun c => if hashed then [hash_bytes (enc (fst c) (snd c))] else enc (fst c) (snd c)) cfgs') observed.
